@@ -104,6 +104,7 @@ def run(model, res, tier):
     H.safely(res, 'R2', 'r2', _r2, model, res, c, cbs['call_function'])
     H.safely(res, 'R1', 'registry_getter', _registry_getter, model, res, c)
     H.safely(res, 'R3', 'r3', _r3, model, res, c, cbs['call_variable'])
+    H.safely(res, 'R3', 'r3 listener hands None', _r3_none, model, res, c, cbs)
     H.safely(res, 'R4', 'r4', _r4, model, res, c)
     H.safely(res, 'R5', 'r5', _r5, model, res, c)
     H.safely(res, 'R6', 'r6', _r6, model, res, c)
@@ -514,6 +515,45 @@ def _check_setter(model, res, c, m, f, attr, setter_name, rule):
 
 
 # ---------------------------------------------------------------------------------------------------
+
+def _r3_none(model, res, c, cbs):
+    """R3 (listener): a listener that hands None to the setter has said nothing - a predefined / set variable keeps its value and an
+    unknown name still ends in #NAME? (a silent blank otherwise).  Run on the abstract parser with an abstract listener (C10's
+    harness: real constructor, real on())."""
+    from . import c10
+    from ..absint import Const, Err, Unmodelled
+    from .c01 import error_singletons
+    key = cbs['call_variable']
+    m, f = c.cg.funcs[key]
+    site = fmt(key)
+    em, singles = error_singletons(model)
+    NAME = [n for n, msg in singles.items() if msg == '#NAME?']
+    ctx = {'model': model, 'c': c, 'res': res, 'cbs': cbs}
+    for label, name, want in (('the predefined TRUE', 'TRUE', ('const', True)), ('a name nobody knows', 'ONLY_A_SPELLING_MISTAKE', ('name-error', None))):
+        try:
+            outs, _ = c10.run_callback(ctx, 'call_variable', lambda interp: [Const(name)], listener_script=lambda: [Const(None)])
+        except Unmodelled as e:
+            res.ob('R3', site, {'listener hands None for': label}, True, 'undecided: %s' % e)
+            continue
+        outs = [o for o in outs if not o.imprecise]
+        if not outs:
+            res.ob('R3', site, {'listener hands None for': label}, True, 'undecided: no precise trace')
+            continue
+        bad = []
+        for o in outs:
+            if want[0] == 'const':
+                good = o.kind == 'return' and isinstance(o.value, Const) and o.value.value is want[1]
+            else:
+                good = o.kind == 'raise' and isinstance(o.value, Err) and o.value.name in NAME
+            if not good:
+                bad.append(o)
+        res.ob('R3', site, {'listener hands None for': label}, not bad, H.describe(outs)[:2])
+        if bad:
+            res.violation('R3', '%s:%s:none-from-listener' % key, m.where(f),
+                          'a callVariable listener hands None to the setter for %s; that is no answer, so the reference must %s - it gives %s'
+                          % (label, 'keep its value %r' % (want[1],) if want[0] == 'const' else 'still end in #NAME? (not in a silent blank)',
+                             '; '.join(H.describe(bad)[:2])), case={'name': name}, func=key[1])
+
 
 def _r3(model, res, c, key):
     m, f = c.cg.funcs[key]
